@@ -13,7 +13,7 @@ pub fn run(ctx: &Ctx, fmt: Fmt) -> i32 {
          (G-B exact midpoints and perturbations, G-C continued-fraction closest approaches, G-A shaped random, \
          G-D short exact ties (also zero-padded across the digit limit), G-E algorithm and product seams, G-F range \
          ends and uncompensable exponents, G-G long tails, G-M Lemire lo==MAX pairs, G-N sparse-limb integers, G-P \
-         powers of two next to a boundary, G-R special 19-digit prefixes, G-T tie integers by bit length), parsed in all 8 feature \
+         powers of two next to a boundary, G-R special 19-digit prefixes, G-T tie integers by bit length, G-I interior points of the rounding interval for special floats and subnormals of every bit length), parsed in all 8 feature \
          configurations and judged by the exact boundary-comparison oracle. A case is non-trivial if the real \
          code takes the big-integer path in the default or compact configuration, or digits were truncated \
          (many_digits), or the result is subnormal / MAX / inf / zero-by-underflow, or the value shares >= 16 (f64) \
